@@ -364,22 +364,12 @@ def _solve_prepared(p, rlimit, wall_ms, fallbacks):
     return res, backend, time.time() - t0, reason
 
 
-def solve_all(obs, facts=None, fallbacks=True, rlimit=None, wall_ms=None):
-    """obs: list of obligations (hyps = facts[:nfacts] + pc + extra_hyps).  returns list of dicts in order."""
-    rlimit = rlimit or RLIMIT
-    wall_ms = wall_ms or WALL_MS
-    out = [None] * len(obs)
-    prepared = {}
-    pending = []
-    for i, o in enumerate(obs):
-        if getattr(o, "trivial", False):
-            out[i] = ("unsat", "z3-simplify", 0.0, "")
-        else:
-            prepared[i] = prepare(o, facts)
-            pending.append(i)
-    hard = (wall_ms * 2.2 + 45000) / 1000.0
-    running = {}     # read fd -> [idx, pid, start, buffer]
-    pending.reverse()
+def pool_map(fn, n_items, hard_s):
+    """run fn(i) for i in range(n_items) in forked children (at most NPROC at a time, hard wall-clock kill);
+    returns list of results (json-serialisable) or None for a killed / crashed child"""
+    out = [None] * n_items
+    pending = list(range(n_items))[::-1]
+    running = {}
     sys.stdout.flush()
     sys.stderr.flush()
     while pending or running:
@@ -391,9 +381,9 @@ def solve_all(obs, facts=None, fallbacks=True, rlimit=None, wall_ms=None):
                 try:
                     os.close(r)
                     try:
-                        res = _solve_prepared(prepared[i], rlimit, wall_ms, fallbacks)
+                        res = fn(i)
                     except Exception as e:  # pragma: no cover
-                        res = ("unknown", "z3-5.1", 0.0, "exception: %s" % e)
+                        res = {"__error__": "exception: %s" % e}
                     os.write(w, json.dumps(res).encode())
                     os.close(w)
                 finally:
@@ -412,11 +402,11 @@ def solve_all(obs, facts=None, fallbacks=True, rlimit=None, wall_ms=None):
             os.waitpid(ent[1], 0)
             del running[fd]
             try:
-                out[ent[0]] = tuple(json.loads(ent[3].decode()))
+                out[ent[0]] = json.loads(ent[3].decode())
             except Exception:
-                out[ent[0]] = ("unknown", "z3-5.1", now - ent[2], "child died")
+                out[ent[0]] = None
         for fd, ent in list(running.items()):
-            if now - ent[2] > hard:
+            if now - ent[2] > hard_s:
                 try:
                     os.kill(ent[1], 9)
                 except OSError:
@@ -424,7 +414,30 @@ def solve_all(obs, facts=None, fallbacks=True, rlimit=None, wall_ms=None):
                 os.close(fd)
                 os.waitpid(ent[1], 0)
                 del running[fd]
-                out[ent[0]] = ("unknown", "z3-5.1", now - ent[2], "hard-timeout")
+                out[ent[0]] = None
+    return out
+
+
+def solve_all(obs, facts=None, fallbacks=True, rlimit=None, wall_ms=None):
+    """obs: list of obligations (hyps = facts[:nfacts] + pc + extra_hyps).  returns list of dicts in order."""
+    rlimit = rlimit or RLIMIT
+    wall_ms = wall_ms or WALL_MS
+    prepared = {}
+    idx = []
+    for i, o in enumerate(obs):
+        if not getattr(o, "trivial", False):
+            prepared[i] = prepare(o, facts)
+            idx.append(i)
+    hard = (wall_ms * 2.2 + 45000) / 1000.0
+    t0 = time.time()
+    raw = pool_map(lambda k: list(_solve_prepared(prepared[idx[k]], rlimit, wall_ms, fallbacks)), len(idx), hard)
+    out = [("unsat", "z3-simplify", 0.0, "")] * len(obs)
+    for k, i in enumerate(idx):
+        r = raw[k]
+        if r is None or isinstance(r, dict):
+            out[i] = ("unknown", "z3-5.1", hard, "hard-timeout or child died" if r is None else r.get("__error__", ""))
+        else:
+            out[i] = tuple(r)
     res = []
     for o, (r, be, dt, reason) in zip(obs, out):
         res.append(dict(name=o.name, kind=o.kind, fn=o.fn, result=r, backend=be, seconds=round(dt, 4),
@@ -443,3 +456,21 @@ def model_for(o, facts=None, wall_ms=60000):
     if s.check() == z3.sat:
         return s.model()
     return None
+
+
+def vacuity(obs, facts=None, wall_ms=20000):
+    """for each given obligation: are its hypotheses contradictory?  returns list of 'sat' | 'unknown' | 'unsat'
+    ('unsat' = the obligation would be discharged vacuously: reported as a checker error)"""
+    preps = [prepare(o, facts) for o in obs]
+
+    def one(k):
+        p = preps[k]
+        r, _ = _check(p.ahyps + _comm_hyps(p.ahyps), z3.BoolVal(False), RLIMIT, wall_ms)
+        if r != "unsat":
+            # the abstraction is weaker than the real hypotheses: also try the exact ones briefly
+            r2, _ = _check(p.hyps, z3.BoolVal(False), RLIMIT, min(wall_ms, 10000))
+            if r2 == "unsat":
+                r = "unsat"
+        return r
+    raw = pool_map(one, len(preps), wall_ms / 1000.0 * 2 + 30)
+    return [r if isinstance(r, str) else "unknown" for r in raw]
